@@ -33,6 +33,10 @@ type Case struct {
 	Spec        harness.StreamSpec
 	HasFinal    bool
 	Final       value.V // result of a payload-streaming method (SendAndClose / CloseAndRecv)
+	// FaultAt >= 0: client message FaultAt breaks exactly one constraint of the
+	// streamed payload (Fault says which); the script ends with that message.
+	FaultAt int
+	Fault   gen.Fault
 }
 
 // Harness renders the case for the harness.
@@ -44,14 +48,14 @@ func (c *Case) Harness() *harness.Case {
 
 // Describe is a one-line description for evidence samples.
 func (c *Case) Describe() map[string]any {
-	return map[string]any{"method": c.Method, "script": c.Spec.Script, "client_closes": c.Spec.ClientCloses, "view": c.Spec.View,
+	return map[string]any{"method": c.Method, "script": c.Spec.Script, "invalid_client_message": c.FaultAt, "fault": c.Fault.Desc, "client_closes": c.Spec.ClientCloses, "view": c.Spec.View,
 		"payload": c.Payload.Canon(), "client_messages": len(c.Spec.Send), "server_messages": len(c.Spec.Results)}
 }
 
 // Key identifies the case for the distinct-case count.
 func (c *Case) Key() string {
 	var b strings.Builder
-	fmt.Fprintf(&b, "%s|%s|%s|%v|%s|%s", c.Transport, c.Method, c.Spec.Script, c.Spec.ClientCloses, c.Spec.View, c.Payload.Canon())
+	fmt.Fprintf(&b, "%s|%s|%s|%v|%s|%s|%d", c.Transport, c.Method, c.Spec.Script, c.Spec.ClientCloses, c.Spec.View, c.Payload.Canon(), c.FaultAt)
 	for _, v := range c.Spec.Send {
 		b.WriteString("|c:" + v.Canon())
 	}
@@ -63,8 +67,21 @@ func (c *Case) Key() string {
 
 // Gen draws a case for a streaming method. maxOps bounds the script length.
 func Gen(d *m.Design, s *m.Service, meth *m.Method, transport string, maxOps int) *rapid.Generator[*Case] {
+	return GenFaulty(d, s, meth, transport, maxOps, false)
+}
+
+// GenFaulty is Gen; with faults set, about one case in three carries one
+// invalid client message (single-fault mutant of a valid message) as its last
+// scripted operation.
+func GenFaulty(d *m.Design, s *m.Service, meth *m.Method, transport string, maxOps int, faults bool) *rapid.Generator[*Case] {
+	valueGen := func(a *m.Attr) *rapid.Generator[value.V] {
+		if transport == "grpc" {
+			return gen.GRPCValueGen(d, a)
+		}
+		return gen.ValidValue(d, a, 3)
+	}
 	return rapid.Custom(func(t *rapid.T) *Case {
-		c := &Case{Svc: s.Name, Method: meth.Name, Transport: transport}
+		c := &Case{Svc: s.Name, Method: meth.Name, Transport: transport, FaultAt: -1}
 		if meth.Payload != nil {
 			c.HasPayload = true
 			if transport == "grpc" {
@@ -100,14 +117,34 @@ func Gen(d *m.Design, s *m.Service, meth *m.Method, transport string, maxOps int
 		c.Spec.Script = string(script)
 		for _, op := range script {
 			if op == 'c' {
-				c.Spec.Send = append(c.Spec.Send, gen.ValidValue(d, meth.StreamingPayload, 3).Draw(t, "msg"))
+				c.Spec.Send = append(c.Spec.Send, valueGen(meth.StreamingPayload).Draw(t, "msg"))
 			} else {
-				c.Spec.Results = append(c.Spec.Results, gen.ValidValue(d, meth.Result, 3).Draw(t, "res"))
+				c.Spec.Results = append(c.Spec.Results, valueGen(meth.Result).Draw(t, "res"))
 			}
 		}
 		if meth.Streaming == "payload" && meth.Result != nil {
 			c.HasFinal = true
-			c.Final = gen.ValidValue(d, meth.Result, 3).Draw(t, "final")
+			c.Final = valueGen(meth.Result).Draw(t, "final")
+		}
+		if faults && len(c.Spec.Send) > 0 && rapid.IntRange(0, 2).Draw(t, "faulty") == 0 {
+			j := rapid.IntRange(0, len(c.Spec.Send)-1).Draw(t, "faultAt")
+			if mut, f, ok := gen.Mutate(t, d, meth.StreamingPayload, c.Spec.Send[j], func(string) gen.Loc { return gen.Loc{Where: "body"} }); ok {
+				// cut the script after the j-th client message
+				seen := -1
+				for k, op := range script {
+					if op == 'c' {
+						seen++
+						if seen == j {
+							script = script[:k+1]
+							break
+						}
+					}
+				}
+				c.Spec.Script = string(script)
+				c.Spec.Send = append(append([]value.V{}, c.Spec.Send[:j]...), mut)
+				c.Spec.Results = c.Spec.Results[:strings.Count(c.Spec.Script, "s")]
+				c.FaultAt, c.Fault = j, f
+			}
 		}
 		if meth.Streaming != "payload" && meth.ResultView == "" {
 			if vs := oracle.ResultViews(d, meth.Result); len(vs) > 0 {
@@ -347,4 +384,69 @@ func ServerToClient(d *m.Design, s *m.Service, meth *m.Method, c *Case, obs *har
 		}
 	}
 	return ""
+}
+
+// Rejected judges a case with one invalid client message: the messages before
+// it arrive as sent, the invalid one is refused by the generated server code
+// (Recv returns an error) and is never handed to the service.
+// skipped is true when the mutant cannot be expressed through the Go API.
+func Rejected(d *m.Design, meth *m.Method, c *Case, obs *harness.Obs) (msg string, skipped bool) {
+	if obs.Err != "" {
+		return "INCONCLUSIVE harness could not run the case: " + obs.Err, false
+	}
+	if obs.Panic != "" {
+		return "panic in generated client code: " + firstLines(obs.Panic, 24), false
+	}
+	if obs.ServerPanic != "" {
+		return "panic in generated server code: " + firstLines(obs.ServerPanic, 24), false
+	}
+	srv, cli := obs.ServerStream, obs.ClientStream
+	j := c.FaultAt
+	if cli != nil {
+		for _, l := range cli.Log {
+			if strings.HasPrefix(l, fmt.Sprintf("send:%d:err:harness conversion", j)) {
+				return "", true
+			}
+			if strings.HasPrefix(l, fmt.Sprintf("send:%d:err:", j)) {
+				// refused by the generated client before it left: never reaches the service either
+				if srv != nil && len(srv.Received) > j {
+					return fmt.Sprintf("the client refused invalid message %d (%s) yet the service received %d messages", j, l, len(srv.Received)), false
+				}
+				return "", false
+			}
+		}
+	}
+	if srv == nil || !srv.Ran || cli == nil || !cli.Ran {
+		return Common(c, obs), false
+	}
+	for i := 0; i < j; i++ {
+		if i >= len(srv.Received) {
+			return lost("client-to-server", i, cli, srv), false
+		}
+		want := oracle.Canonicalize(d, meth.StreamingPayload, c.Spec.Send[i])
+		got := oracle.Canonicalize(d, meth.StreamingPayload, srv.Received[i])
+		if m := oracle.Match(d, meth.StreamingPayload, want, got, false, ""); m != "" {
+			return fmt.Sprintf("valid message %d before the invalid one differs at the service: %s", i, m), false
+		}
+	}
+	if len(srv.Received) > j {
+		return fmt.Sprintf("message %d violates the design (%s) and was handed to the service as %s\n  sent: %s\n  server: %s", j, c.Fault.Desc, srv.Received[j].Canon(), c.Spec.Send[j].Canon(), logOf(srv)), false
+	}
+	pre := fmt.Sprintf("recv:%d:", j)
+	for _, l := range srv.Log {
+		if strings.HasPrefix(l, pre) {
+			switch {
+			case strings.HasPrefix(l, pre+"err:"):
+				return "", false
+			case l == pre+"timeout":
+				if has(cli, fmt.Sprintf("send:%d:ok", j)) {
+					return fmt.Sprintf("invalid message %d was sent but the service's Recv neither returned it nor failed\n  client: %s\n  server: %s", j, logOf(cli), logOf(srv)), false
+				}
+				return "INCONCLUSIVE " + logOf(cli) + " / " + logOf(srv), false
+			case l == pre+"eof":
+				return fmt.Sprintf("invalid message %d (%s) was turned into the end of the stream (io.EOF) instead of an error\n  sent: %s", j, c.Fault.Desc, c.Spec.Send[j].Canon()), false
+			}
+		}
+	}
+	return fmt.Sprintf("the service never tried to receive message %d\n  client: %s\n  server: %s", j, logOf(cli), logOf(srv)), false
 }
